@@ -141,7 +141,16 @@ class Family:
 
 
 def mesh_2d(check, proj):
-    cls = proj.cls("mesh2d.mesh2d")
+    """every class of the 2D mesh family (mesh2d and the names derived from it, e.g. the `unimesh`
+    alias) is constructed through ITS OWN constructor chain with symbolic (nx, ny, lx, ly)"""
+    base = proj.cls("mesh2d.mesh2d")
+    fam = [c for c in proj.subclasses(base) if c.module is base.module]
+    check.floor("2D mesh classes", len(fam), 2)
+    for cls in fam:
+        _mesh_2d(check, proj, cls)
+
+
+def _mesh_2d(check, proj, cls):
     A = Algebra()
     A.fold_enabled = False
     dom = GvnDomain(A)
@@ -153,7 +162,11 @@ def mesh_2d(check, proj):
                    "repeat": lambda args, kw: ("repeat", it.lift(args[0]), it.lift(args[1]))}
     obj = SelfObj(cls, {})
     init = proj.resolve(cls, "__init__")
-    it.call_function(init, [obj, nx, ny, lx, ly])
+    given = {"nx": nx, "ny": ny, "lx": lx, "ly": ly}
+    unknown = [p_ for p_ in init.params[1:] if p_ not in given]
+    if unknown:
+        raise AnalysisError("%s.__init__ has parameters %s unknown to the checker" % (cls.qualname, unknown))
+    it.call_function(init, [obj] + [given[p_] for p_ in init.params[1:]])
     loc = init.loc()
     q = cls.qualname
     at = obj.attrs
@@ -218,7 +231,11 @@ def body(check):
                          "refined-zone ratio and rounding safety, and the 2D index tables / orientations / normals / volumes "
                          "are decided as ring identities in the symbolic sizes")
     check.assume("positive length, ratio, proportions, nx, ny, lx, ly; rounding inside np.linspace not decided; user morphing monotone")
-    classes = [c for c in MESH_CLASSES if proj.has_cls("mesh." + c)]
+    base1 = proj.cls("mesh.mesh1d")
+    classes = [c.name for c in proj.subclasses(base1) if c.module is base1.module]      # the whole 1D family, aliases and later subclasses included
+    missing = [c for c in MESH_CLASSES if c not in classes]
+    if missing:
+        raise AnalysisError("1D mesh classes %s of the statement not found" % missing)
     check.floor("1D mesh classes", len(classes), 4)
     for c in classes:
         check.guarded("MESH-COUNT", "mesh." + c, lambda: mesh_1d(check, proj, c))
